@@ -380,6 +380,75 @@ def _hc_replay(cfg, values, doc):
     return None
 
 
+# ------------------------------------------------------------------ a unique attribute that is LAZY and not loaded yet: a refused assignment has nothing stored to take back
+_LM = None
+
+
+def lazy_model():
+    global _LM
+    if _LM is None:
+        db = orm.Database('sqlite', ':memory:')
+
+        class Doc(db.Entity):
+            id = orm.PrimaryKey(int)
+            code = orm.Optional(str, unique=True, lazy=True, nullable=True)
+            n = orm.Optional(int)
+            shelf = orm.Optional('Shelf')
+
+        class Shelf(db.Entity):
+            id = orm.PrimaryKey(int)
+            docs = orm.Set(Doc)
+        db.generate_mapping(create_tables=True)
+        with orm.db_session:
+            s1 = Shelf(id=1); Shelf(id=2)
+            Doc(id=1, code='x', n=1, shelf=s1); Doc(id=2, code='y', n=2, shelf=s1); Doc(id=3, n=3)
+        _LM = types.SimpleNamespace(db=db, Doc=Doc, Shelf=Shelf)
+    return _LM
+
+
+_LAZY_OPS = {
+    'assign the key another loaded object holds': lambda M: setattr(M.Doc[2], 'code', 'x'),
+    'set: a scalar first, then the conflicting key': lambda M: M.Doc[2].set(n=50, code='x'),
+    'set: the conflicting key, a scalar and a relation': lambda M: M.Doc[2].set(code='x', n=50, shelf=M.Shelf[2]),
+    'set on an object whose key was NULL': lambda M: M.Doc[3].set(shelf=M.Shelf[1], code='x'),
+    'assign after the attribute was loaded': lambda M: (M.Doc[2].code, setattr(M.Doc[2], 'code', 'x')),
+    'assign a free key': lambda M: setattr(M.Doc[2], 'code', 'free'),
+}
+
+
+def _lz_configs(tier):
+    return [dict(op=k, holder_loaded=h) for k in _LAZY_OPS for h in (True, False)]
+
+
+def _lz_case(cfg, values):
+    M = lazy_model()
+
+    def teardown(run):
+        try: orm.rollback()
+        except Exception: pass
+        _reset_session()
+
+    def call():
+        st = cur().state
+        core.local.db_context_counter = 1
+        cache = st['cache'] = M.db._get_cache()
+        docs = list(M.Doc.select().order_by(M.Doc.id)); [list(s.docs) for s in M.Shelf.select()]
+        if cfg['holder_loaded']: docs[0].code                          # Doc[1].code = 'x' is registered in the session's key index only once it was read
+        if 'after the attribute was loaded' in cfg['op']: docs[1].code
+        st['before'] = session_snapshot(cache)
+        try: _LAZY_OPS[cfg['op']](M)
+        finally: st['after'] = session_snapshot(cache)
+        return 'accepted'
+    return Case(call, {}, [], lambda run: _reset_session(), teardown)
+
+
+def _lz_spec(cfg, i, path):
+    st = path.state
+    conflict = cfg['holder_loaded'] and 'free' not in cfg['op']          # a key the session does not know to be taken is accepted (the database decides at flush time)
+    if path.outcome == 'ret': return not conflict
+    return conflict and type(path.value) is core.CacheIndexError and st['before'] == st['after']
+
+
 CONTRACTS = [
     Contract('do_undo_on_symbolic_indexes', ['pony.orm.core:Attribute.__set__', 'pony.orm.core:Entity.set', 'pony.orm.core:SessionCache.update_simple_index',
                                              'pony.orm.core:SessionCache.update_composite_index'], _lem_configs, _lem_case,
@@ -387,6 +456,9 @@ CONTRACTS = [
               ('success_updates_exactly', _lem_success_view)],
              allowed_exc=(core.CacheIndexError,), replay=False,
              doc='real loaded object; unique index and composite index symbolic (arbitrary content); old and new key values symbolic'),
+    Contract('unloaded_lazy_unique_attribute', ['pony.orm.core:Attribute.__set__', 'pony.orm.core:Entity.set', 'pony.orm.core:SessionCache.update_simple_index'], _lz_configs, _lz_case,
+             [('refused_with_CacheIndexError_and_nothing_changed', _lz_spec)], level='bounded', allowed_exc=(core.CacheIndexError,),
+             bound='6 assignments / set() calls on a lazy unique attribute that is not loaded (one control with it loaded), the holder of the key known to the session or not'),
     Contract('handlers_with_fault_injection',
              ['pony.orm.core:Attribute.__set__', 'pony.orm.core:Entity.set', 'pony.orm.core:Entity.__init__', 'pony.orm.core:Set.__set__', 'pony.orm.core:SetInstance.add',
               'pony.orm.core:SetInstance.remove', 'pony.orm.core:SetInstance.clear', 'pony.orm.core:Entity._delete_', 'pony.orm.core:Attribute.update_reverse',
